@@ -329,6 +329,10 @@ def clamp_rule(chk, db):
         chk.analysis_broken("CLAMP: only %d length clamps found in basic_inplace_string (floor 4)" % n)
 
 
+META_EXTRA = 'SLOTS-W / SLOTS-U (grown characters written; range writes below the size slot); NULFREE (no NUL-sensitive routine reachable from counted operations); CLAMP (length clamps measure one object).'
+META = (META[0] + " " + META_EXTRA, META[1])
+
+
 def run(chk, tier):
     db = D.load("checks")
     plain = D.load("plain")
